@@ -234,6 +234,42 @@ def main(tier, replay=None):
                 if lib is not None:
                     cwire.drive_case(c, lib, worker, want=("enc", "dec"))
             pywire.validate_and_decide(rep, wtraces, count_events=("CEncode", "CDecode"))
+            # schema files with unusual names: the output file is <base name>_bp<ext>, only the last dotted part of
+            # the name being its extension
+            odd_names = ["zoo.v2.bitproto", "sensor.rev3.final.bitproto", "a-b.bitproto", "UPPER.bitproto", "noext",
+                         "name.proto", ".hidden.bitproto", "x_y.z.bitproto", "v1.2.3"]
+            small = {"files": {"main": [{"d": "proto", "name": "oddname"},
+                                        {"d": "message", "name": "Top", "ext": False,
+                                         "body": [{"d": "field", "name": "a", "num": 1, "t": {"k": "uint", "n": 5}}]}]},
+                     "order": ["main"], "main": "main", "top": "Top"}
+            for oi, fname in enumerate(odd_names if tier != "quick" else odd_names[(seed % 3)::2] + odd_names[:1]):
+                d = scratch.sub()
+                sub = os.path.join(d, "dir.with.dots")
+                os.makedirs(sub)
+                path = os.path.join(sub, fname)
+                with open(path, "w") as fh:
+                    fh.write(render.render_file(small["files"]["main"]))
+                proto, outcome = P.observe_parse(path)
+                obs = [outcome]
+                if proto is not None:
+                    for lang, exts, kw in (("c", (".h", ".c"), {}), ("c", (".h", ".c"), {"optimize": True}),
+                                           ("go", (".go",), {}), ("py", (".py",), {})):
+                        out = os.path.join(d, "out_%s%s" % (lang, "_O" if kw else ""))
+                        os.makedirs(out)
+                        try:
+                            drive.compile_inproc(path, lang, out, **kw)
+                            for ext in exts:
+                                obs.append({"ev": "FilesNamed", "parts": fname.split("."), "ext": ext,
+                                            "lang": lang, "names": sorted(os.listdir(out))})
+                        except Exception as exc:
+                            obs.append({"ev": "Raise", "what": "%s@%s@render-%s" % (drive.exc_signature(exc) + (lang,))})
+                tr = P.spec_program(small)
+                tr["id"] = "c15-oddname-%s" % fname
+                tr["obs"] = obs
+                traces.append(tr)
+                pr_ = dict(small, _texts={"main": "file name: " + fname})
+                metas.append(("file-name", False, pr_))
+                rep.feature("odd-file-name")
             verdicts, r = comptrace.validate(traces)
     finally:
         worker.close()
